@@ -641,3 +641,18 @@ where
         let _ = self.inner.streams.recv_eof(true);
     }
 }
+
+#[cfg(feature = "verif")]
+impl<T, P, B> Connection<T, P, B>
+where
+    P: Peer,
+    B: Buf + std::marker::Send + 'static,
+{
+    pub(crate) fn verif_stats_handle(&self) -> crate::verif::StatsHandle {
+        self.inner.streams.verif_stats_handle()
+    }
+
+    pub(crate) fn verif_codec_stats(&self) -> crate::verif::CodecStats {
+        self.codec.verif_stats()
+    }
+}
